@@ -41,7 +41,7 @@ WRITE_SITES = [
 
 # sites observed on entry and exit (few calls per session), so that the A/X ops they cause carry their own label
 FLUSH_SITES = {"set_reference", "add_table", "add_sheet", "create_caption_archive", "add_paragraph_style", "add_cell_style",
-               "add_formula_owner", "recalculate_merged_cells"}
+               "add_formula_owner", "recalculate_merged_cells", "add_stroke"}
 
 _installed = False
 
